@@ -213,7 +213,9 @@ def main():
         elif states & {'WORKER_CRASH', 'EXEC_ERR', 'POST_ERR', 'SYNTAX_ERR', 'IMPORT_ERR'}:
             v = 'error'
         elif 'PRE_UNSAT' in states:
-            v = 'pre_unsat'
+            # an empty class of a case split is decided (nothing to explore), otherwise a harness error
+            raised = any('raised' in m['message'] for m in msgs)
+            v = 'confirmed' if (sub.get('may_be_empty') and not raised) else 'pre_unsat'
         elif states == {'CONFIRMED'} and (st.truncated, st.aborted) == before[:2]:
             v = 'confirmed'
         else:
